@@ -1,6 +1,7 @@
 from abc import ABC, abstractmethod
 import getpass
 import sys, os, pickle
+import io, hashlib
 import tempfile
 import types
 import re
@@ -244,6 +245,10 @@ class LarkOptions(Serialize):
         return cls(data)
 
 
+def _bytes_digest(b: bytes) -> bytes:
+    return hashlib.sha256(b).hexdigest().encode('utf8')
+
+
 # Options that can be passed to the Lark parser, even when it was loaded from cache/standalone.
 # These options are only used outside of `load_grammar`.
 _LOAD_ALLOWED_OPTIONS = {'postlex', 'transformer', 'lexer_callbacks', 'use_bytes', 'debug', 'g_regex_flags', 'regex', 'propagate_positions', 'tree_class', '_plugins'}
@@ -375,12 +380,16 @@ class Lark(Serialize, Generic[_Return_T]):
                         # Remove options that aren't relevant for loading from cache
                         for name in (set(options) - _LOAD_ALLOWED_OPTIONS):
                             del options[name]
-                        file_sha256 = f.readline().rstrip(b'\n')
-                        cached_used_files = pickle.load(f)
-                        if file_sha256 == cache_sha256.encode('utf8') and verify_used_files(cached_used_files):
-                            cached_parser_data = pickle.load(f)
-                            self._load(cached_parser_data, **options)
-                            return
+                        file_header = f.readline().rstrip(b'\n')
+                        body = f.read()
+                        # The header also carries a digest of the body, so a damaged file is never loaded
+                        if file_header == cache_sha256.encode('utf8') + b' ' + _bytes_digest(body):
+                            body_f = io.BytesIO(body)
+                            cached_used_files = pickle.load(body_f)
+                            if verify_used_files(cached_used_files):
+                                cached_parser_data = pickle.load(body_f)
+                                self._load(cached_parser_data, **options)
+                                return
                 except FileNotFoundError:
                     # The cache file doesn't exist; parse and compose the grammar as normal
                     pass
@@ -484,9 +493,12 @@ class Lark(Serialize, Generic[_Return_T]):
             try:
                 with FS.open(cache_fn, 'wb') as f:
                     assert cache_sha256 is not None
-                    f.write(cache_sha256.encode('utf8') + b'\n')
-                    pickle.dump(used_files, f)
-                    self.save(f, _LOAD_ALLOWED_OPTIONS)
+                    body_f = io.BytesIO()
+                    pickle.dump(used_files, body_f)
+                    self.save(body_f, _LOAD_ALLOWED_OPTIONS)
+                    body = body_f.getvalue()
+                    f.write(cache_sha256.encode('utf8') + b' ' + _bytes_digest(body) + b'\n')
+                    f.write(body)
             except IOError as e:
                 logger.exception("Failed to save Lark to cache: %r.", cache_fn, e)
 
